@@ -1,19 +1,25 @@
 #!/bin/bash
-# seedall.sh: run every seeded change against the check of its property (and extra checks listed in
-# seeded/<name>/also) and write seeded/RESULTS.tsv: name, check, exit code, first violation key.
+# seedall.sh [shard nshards]: run every seeded change against the check of its property (and the extra checks
+# listed in seeded/<name>/also) and write seeded/RESULTS.tsv: name, check, exit code, first violation key.
+# With shard arguments only every nshards-th change is run and the rows go to seeded/RESULTS.<shard>.tsv
+# (merge: cat seeded/RESULTS.*.tsv | sort > seeded/RESULTS.tsv).
 cd /verif
+shard=${1:-0}; n=${2:-1}
 out=seeded/RESULTS.tsv
+[ $n -gt 1 ] && out=seeded/RESULTS.$shard.tsv
 : > $out
+i=0
 for d in seeded/*/; do
-  n=$(basename $d)
+  name=$(basename $d)
   [ -f $d/patch.diff ] || continue
-  id=$(echo $n | sed 's/-.*//' | tr 'a-z' 'A-Z')
+  i=$((i+1))
+  [ $((i % n)) -eq $shard ] || continue
+  id=$(echo $name | sed 's/-.*//' | tr 'a-z' 'A-Z')
   for chk in $id $(cat $d/also 2>/dev/null); do
-    res=$(./seedrun.sh $n $chk 2>&1)
+    res=$(./seedrun.sh $name $chk 2>&1)
     rc=$(echo "$res" | grep -o 'exit=[0-9]*' | tail -1 | cut -d= -f2)
     key=$(echo "$res" | grep -o 'key=[^ ]*' | head -1 | cut -d= -f2)
-    [ -z "$key" ] && key=$(echo "$res" | grep -A1 '^VIOLATION' | grep -o 'key=[^ ]*' | head -1)
-    echo -e "$n\t$chk\t$rc\t$key" >> $out
+    echo -e "$name\t$chk\t$rc\t$key" >> $out
   done
 done
-cat $out
+[ $n -gt 1 ] || cat $out
